@@ -39,6 +39,25 @@ type c07In struct {
 	// "intact" bit, and the Coq side uses the length-level model.
 	ReqBig  int `json:"reqBig"`
 	RespBig int `json:"respBig"`
+
+	// proxy `compression` (Zip) with minLength MinLen; AE = the client's Accept-Encoding
+	// ("" = header absent); RespGz = oracle: gzip of the body the backend's framing carries
+	Zip    bool   `json:"zip"`
+	MinLen int    `json:"minLen"`
+	AE     string `json:"ae"`
+	RespGz []byte `json:"respGz"`
+}
+
+// c07ReloadIn: a history against ONE mux; before a step whose server / path limits differ
+// from the previous step's the mux is reloaded with the new HTTPServer spec (same rules,
+// only the limits change).  Pool / proxy limits and compression are those of step 0.
+type c07ReloadIn struct {
+	Steps []c07In `json:"steps"`
+}
+
+type c07ReloadObs struct {
+	Steps []c07Obs `json:"steps"`
+	Panic string   `json:"panic"`
 }
 
 type c07Obs struct {
@@ -72,6 +91,14 @@ func c07BigBody(n int, salt byte) []byte {
 }
 
 func c07PipelineYAML(addr string, pool, proxy int64) string {
+	return c07PipelineYAMLZip(addr, pool, proxy, false, 0)
+}
+
+func c07PipelineYAMLZip(addr string, pool, proxy int64, zip bool, minLen int) string {
+	comp := ""
+	if zip {
+		comp = fmt.Sprintf("  compression:\n    minLength: %d\n", minLen)
+	}
 	return fmt.Sprintf(`
 name: p
 kind: Pipeline
@@ -79,28 +106,26 @@ filters:
 - name: proxy
   kind: Proxy
   serverMaxBodySize: %d
-  pools:
+%s  pools:
   - serverMaxBodySize: %d
     servers:
     - url: http://%s
-`, proxy, pool, addr)
+`, proxy, comp, pool, addr)
 }
 
-func c07Run(in c07In) (obs c07Obs) {
-	defer func() {
-		if r := recover(); r != nil {
-			obs.Panic = fmt.Sprint(r)
-		}
-	}()
-	reqBody, respBody := in.ReqBody, in.RespBody
+func c07Bodies(in *c07In) (reqBody, respBody []byte) {
+	reqBody, respBody = in.ReqBody, in.RespBody
 	if in.ReqBig > 0 {
 		reqBody = c07BigBody(in.ReqBig, 1)
 	}
 	if in.RespBig > 0 {
 		respBody = c07BigBody(in.RespBig, 2)
 	}
+	return
+}
 
-	// scripted backend response
+func c07Script(in *c07In) []byte {
+	_, respBody := c07Bodies(in)
 	var raw bytes.Buffer
 	fmt.Fprintf(&raw, "HTTP/1.1 %d Scripted\r\nContent-Type: application/octet-stream\r\n", in.RespStatus)
 	switch in.RespEnc {
@@ -114,18 +139,33 @@ func c07Run(in c07In) (obs c07Obs) {
 		raw.WriteString("Connection: close\r\n\r\n")
 		raw.Write(respBody)
 	}
-	be := c07StartBackend(raw.Bytes())
-	closed := false
-	defer func() {
-		if !closed {
-			be.Close()
-		}
-	}()
-	fr := c07StartFront(c07ServerYAML(in.Srv, in.Path), c07PipelineYAML(be.Addr(), in.Pool, in.Proxy))
-	defer fr.Close()
+	return raw.Bytes()
+}
 
+// c07FillOracle: gzip of the body that the backend's framing carries (the announced
+// prefix when more is sent than announced).
+func c07FillOracle(in *c07In) {
+	in.RespGz = nil
+	if !in.Zip || in.RespBig > 0 {
+		return
+	}
+	b := in.RespBody
+	if in.RespEnc == "cl" && in.RespDecl >= 0 && in.RespDecl < len(b) {
+		b = b[:in.RespDecl]
+	}
+	in.RespGz = c07Gzip(b)
+}
+
+// c07Serve sends the request of in through the front; the backend part of the
+// observation covers what the backend received since the call started.
+func c07Serve(fr *c07Front, be *c07Backend, in *c07In) (obs c07Obs) {
+	reqBody, respBody := c07Bodies(in)
+	before := len(be.Seen())
 	var req bytes.Buffer
 	req.WriteString("POST /c07/x HTTP/1.1\r\nHost: front.test\r\nContent-Type: application/octet-stream\r\n")
+	if in.AE != "" {
+		fmt.Fprintf(&req, "Accept-Encoding: %s\r\n", in.AE)
+	}
 	half := false
 	switch in.ReqEnc {
 	case "cl":
@@ -140,8 +180,8 @@ func c07Run(in c07In) (obs c07Obs) {
 		req.WriteString("\r\n")
 	}
 	r := c07Exchange(fr.Addr(), req.Bytes(), half)
-	seen := be.Close()
-	closed = true
+	be.Quiesce()
+	seen := be.Seen()[before:]
 
 	obs.Got, obs.Status, obs.FrameOK, obs.Declared = r.Got, r.Status, r.FrameOK, r.Declared
 	obs.Heads = len(seen)
@@ -165,6 +205,46 @@ func c07Run(in c07In) (obs c07Obs) {
 		if obs.BBody == nil {
 			obs.BBody = []byte{}
 		}
+	}
+	return
+}
+
+func c07Run(in c07In) (obs c07Obs) {
+	defer func() {
+		if r := recover(); r != nil {
+			obs.Panic = fmt.Sprint(r)
+		}
+	}()
+	be := c07StartBackend(c07Script(&in))
+	defer be.Close()
+	fr := c07StartFront(c07ServerYAML(in.Srv, in.Path), c07PipelineYAMLZip(be.Addr(), in.Pool, in.Proxy, in.Zip, in.MinLen))
+	defer fr.Close()
+	return c07Serve(fr, be, &in)
+}
+
+func c07RunReload(h *c07ReloadIn) (obs c07ReloadObs) {
+	defer func() {
+		if r := recover(); r != nil {
+			obs.Panic = fmt.Sprint(r)
+		}
+	}()
+	if len(h.Steps) == 0 {
+		return
+	}
+	first := &h.Steps[0]
+	be := c07StartBackend(nil)
+	defer be.Close()
+	fr := c07StartFront(c07ServerYAML(first.Srv, first.Path), c07PipelineYAMLZip(be.Addr(), first.Pool, first.Proxy, first.Zip, first.MinLen))
+	defer fr.Close()
+	srv, path := first.Srv, first.Path
+	for i := range h.Steps {
+		st := &h.Steps[i]
+		if st.Srv != srv || st.Path != path {
+			srv, path = st.Srv, st.Path
+			fr.Reload(c07ServerYAML(srv, path))
+		}
+		be.SetRaw(c07Script(st))
+		obs.Steps = append(obs.Steps, c07Serve(fr, be, st))
 	}
 	return
 }
@@ -279,6 +359,110 @@ func c07Gen(r *vfRand, adv bool) (in c07In) {
 	default:
 		in.RespEnc, in.RespChunk, in.RespTerm = "chunked", r.PickInt(1, 5, 1000), false
 	}
+	// proxy compression in front of the response limit: lying backends x Accept-Encoding
+	if r.Chance(1, 4) || (adv && r.Bool()) {
+		in.Zip, in.MinLen = true, r.PickInt(0, 0, 20, 100)
+		in.AE = r.PickStr("", "gzip", "gzip", "deflate, gzip", "*/*", "identity", "br")
+		if seff < 0 && !c07RespComplete(&in) {
+			// a streamed, compressed, truncated body: what has been flushed is unspecified
+			in.Zip = false
+		}
+	}
+	c07FillOracle(&in)
+	return
+}
+
+// c07GenZipLying: proxy compression in front of a backend whose body is shorter than
+// announced (or whose chunked body is cut), the request itself being unproblematic.
+func c07GenZipLying(r *vfRand) (in c07In) {
+	in.Pool = int64(r.PickInt(0, 0, 0, 5000))
+	body := c07Bytes(r, r.PickInt(0, 1, 40))
+	in.ReqEnc, in.ReqDecl, in.ReqBody = "cl", len(body), body
+	in.Zip, in.MinLen = true, r.PickInt(0, 0, 20, 100)
+	in.AE = r.PickStr("", "", "gzip", "gzip", "gzip, deflate, br", "*/*", "identity", "br")
+	in.RespStatus = r.PickInt(200, 200, 200, 201, 404)
+	decl := r.PickInt(50, 200, 2000)
+	switch r.Intn(6) {
+	case 0: // honest
+		in.RespEnc, in.RespDecl, in.RespBody = "cl", decl, c07Bytes(r, decl)
+	case 1: // chunked, cut before the last-chunk
+		in.RespEnc, in.RespChunk, in.RespTerm, in.RespBody = "chunked", r.PickInt(16, 1000), false, c07Bytes(r, decl/2)
+	default: // announces more than it sends
+		in.RespEnc, in.RespDecl, in.RespBody = "cl", decl, c07Bytes(r, r.PickInt(0, 1, decl/4, decl/2, decl-1))
+	}
+	c07FillOracle(&in)
+	return
+}
+
+func c07RespComplete(in *c07In) bool {
+	switch in.RespEnc {
+	case "cl":
+		return len(in.RespBody) >= in.RespDecl
+	case "chunked":
+		return in.RespTerm
+	}
+	return true
+}
+
+// c07GenReload: a history with reloads that change only the limits.  Bodies sit around
+// the limits of ALL generations of the history, so that a limit surviving a reload is hit.
+func c07GenReload(r *vfRand, adv bool) (h c07ReloadIn) {
+	lim := func() int64 {
+		switch r.Intn(7) {
+		case 0:
+			return 0
+		case 1:
+			return -1
+		default:
+			return int64(r.PickInt(16, 40, 100, 500, 1000))
+		}
+	}
+	type gen struct{ srv, path int64 }
+	gens := []gen{{lim(), 0}}
+	if !adv && r.Chance(1, 3) {
+		gens[0].path = lim()
+	}
+	for len(gens) < r.Range(2, 4) {
+		g := gens[len(gens)-1]
+		switch r.Intn(4) {
+		case 0, 1: // only the server-level value changes
+			g.srv = lim()
+		case 2:
+			g.path = lim()
+		default:
+			g.srv, g.path = lim(), lim()
+		}
+		if adv {
+			g.path = 0
+		}
+		if g != gens[len(gens)-1] {
+			gens = append(gens, g)
+		}
+	}
+	var sizes []int
+	for _, g := range gens {
+		for _, l := range []int64{g.srv, g.path} {
+			if l > 0 {
+				sizes = append(sizes, int(l)-1, int(l), int(l)+1)
+			}
+		}
+	}
+	sizes = append(sizes, 0, 5, 2000)
+	for _, g := range gens {
+		for k := r.Range(1, 3); k > 0; k-- {
+			var in c07In
+			in.Srv, in.Path = g.srv, g.path
+			n := sizes[r.Intn(len(sizes))]
+			in.ReqBody = c07Bytes(r, n)
+			if r.Bool() {
+				in.ReqEnc, in.ReqDecl = "cl", n
+			} else {
+				in.ReqEnc, in.ReqChunk, in.ReqTerm = "chunked", r.PickInt(7, 64, 1000), true
+			}
+			in.RespStatus, in.RespEnc, in.RespBody, in.RespDecl = 200, "cl", []byte("ok"), 2
+			h.Steps = append(h.Steps, in)
+		}
+	}
 	return
 }
 
@@ -309,10 +493,19 @@ func TestVerifC07(t *testing.T) {
 	out := vfOpen(t)
 	defer out.Close()
 	for _, sc := range vfStored("") {
+		if sc.Grp == "reload" {
+			var h c07ReloadIn
+			if err := json.Unmarshal(sc.In, &h); err != nil {
+				t.Fatal(err)
+			}
+			out.Emit(vfCase{ID: sc.ID, Src: sc.Src, Grp: "reload", In: h, Obs: c07RunReload(&h)})
+			continue
+		}
 		var in c07In
 		if err := json.Unmarshal(sc.In, &in); err != nil {
 			t.Fatal(err)
 		}
+		c07FillOracle(&in)
 		out.Emit(vfCase{ID: sc.ID, Src: sc.Src, Grp: sc.Grp, In: in, Obs: c07Run(in)})
 	}
 	if vfReplayOnly() {
@@ -326,7 +519,15 @@ func TestVerifC07(t *testing.T) {
 	}
 	n := vfN(300)
 	for i := 0; i < n; i++ {
+		if i%8 == 5 {
+			h := c07GenReload(root.Fork(i), adv)
+			out.Emit(vfCase{ID: fmt.Sprintf("%s-reload-%d", src, i), Src: src, Grp: "reload", In: h, Obs: c07RunReload(&h)})
+			continue
+		}
 		in := c07Gen(root.Fork(i), adv)
+		if i%12 == 7 {
+			in = c07GenZipLying(root.Fork(i))
+		}
 		out.Emit(vfCase{ID: fmt.Sprintf("%s-body-%d", src, i), Src: src, Grp: "body", In: in, Obs: c07Run(in)})
 	}
 	if vfTier() == "thorough" && !adv {
